@@ -17,7 +17,7 @@ ASSUMPTIONS = [
 CASES = {"quick": 120000, "thorough": 4000000}
 MIN_CASES = {"quick": 20000, "thorough": 500000}
 REQUIRED_CLASSES = ["ext_tangent_axis", "int_tangent_axis", "ext_tangent_dir", "int_tangent_dir", "equal", "lens"]
-REQUIRED_COUNTERS = ["oracle_compared", "symmetry_checked"]
+REQUIRED_COUNTERS = ["oracle_compared", "symmetry_checked", "reused_points_checked"]
 
 _f = None
 _Point = None
@@ -117,7 +117,11 @@ def generate(rng, tier, i):
         th = rng.uniform(0, 2 * math.pi)
         c1 = off
         c2 = (c1[0] + d * math.cos(th), c1[1] + d * math.sin(th))
-    return {"cls": cls, "c1": [float(c1[0]), float(c1[1])], "r1": float(r1), "c2": [float(c2[0]), float(c2[1])], "r2": float(r2)}
+    case = {"cls": cls, "c1": [float(c1[0]), float(c1[1])], "r1": float(r1), "c2": [float(c2[0]), float(c2[1])], "r2": float(r2)}
+    if rng.random() < 0.2:
+        m = max(r1, r2)
+        case["move"] = [rng.choice([0.0, 0.3, -0.7]) * m, rng.choice([0.5, -0.25, 1.5, 0.01]) * m]
+    return case
 
 
 def directed():
@@ -173,6 +177,24 @@ def check(case, ctx):
         if not isinstance(val, (int, float)) or not math.isfinite(val):
             ctx.violation("non_finite", f"returned {val!r}")
             return
+    # Point objects are mutable and callers move them in place (the force-directed layout does): evaluate, move, evaluate again
+    if case.get("move"):
+        ctx.count("reused_points_checked")
+        p1, p2 = P(c1[0], c1[1]), P(c2[0], c2[1])
+        ctx.call(_f, p1, r1, p2, r2)
+        dx, dy = case["move"]
+        if dx:
+            p2.x += dx          # only the coordinates that change are assigned (a clamp along one axis touches one attribute)
+        if dy:
+            p2.y += dy
+            p1.y -= dy
+        ok3, v3 = ctx.call(_f, p1, r1, p2, r2)
+        n1, n2 = [p1.x, p1.y], [p2.x, p2.y]
+        ex3, _, _ = exact_lens(n1, r1, n2, r2)
+        if not ok3:
+            ctx.violation("raised", f"after moving the centres in place: {v3!r}")
+        elif abs(_mp.mpf(v3) - ex3) > 1e-5 * rmax2:
+            ctx.violation("stale_after_move", f"after moving the centres in place to {n1} / {n2} the area is {v3!r}, exact {float(ex3)!r} (r1={r1!r}, r2={r2!r})")
     slack = 1e-6 * rmax2
     ctx.count("symmetry_checked")
     if abs(v - w) > slack:
